@@ -33,6 +33,7 @@ type genPlan struct {
 }
 
 var genPlans = map[string][]genPlan{
+	"C04": {{kind: "clock", quickDepth: 3, thoroughDepth: 4}, {kind: "clock", cfg: Config{Disk: true}, quickDepth: 3, thoroughDepth: 4}},
 	"C13": {{kind: "registry", quickDepth: 4, thoroughDepth: 6}},
 	"C14": {{kind: "expiry", quickDepth: 4, thoroughDepth: 5}, {kind: "expiry", cfg: Config{Disk: true}, quickDepth: 3, thoroughDepth: 4}},
 	"C16": {{kind: "feeds", cfg: Config{Disk: true}, quickDepth: 4, thoroughDepth: 5}, {kind: "feeds", quickDepth: 4, thoroughDepth: 5}},
@@ -94,6 +95,10 @@ func RunCheck(prop, tier string, procs int, budget time.Duration) int {
 			bound = 3
 		}
 		RunSchedMany(rep, pool, ScenarioNames(prefixes...), bound, deadline)
+	}
+	if prop == "C04" {
+		known = true
+		RunClockScripts(rep, ifi(quick, 6, 7))
 	}
 	if gp, ok := genPlans[prop]; ok {
 		known = true
